@@ -58,6 +58,46 @@ func (fr *Frame) noteResult(name string, r Val, st *State) {
 }
 
 func (fr *Frame) call0(instr ssa.Instruction, cc *ssa.CallCommon, st *State, reach string) Val {
+	r := fr.call0inner(instr, cc, st, reach)
+	fr.callYields(cc, r, st, reach, instr.Pos())
+	return r
+}
+
+// callYields: `callsite <name> yields e` clauses of the enclosing function's contract are assumed for the result of
+// the named call (a call into a dependency whose behaviour this package relies on).
+func (fr *Frame) callYields(cc *ssa.CallCommon, r Val, st *State, reach string, pos token.Pos) {
+	ct := fr.contract
+	if ct == nil || len(ct.clauses("callyields")) == 0 {
+		return
+	}
+	var name string
+	if cc.IsInvoke() {
+		name = cc.Method.Name()
+	} else if f := cc.StaticCallee(); f != nil {
+		name = f.Name()
+	} else {
+		return
+	}
+	for _, cl := range ct.clauses("callyields") {
+		if cl.Label != name {
+			continue
+		}
+		env := fr.env(st)
+		if r.Tuple != nil {
+			env.results = r.Tuple
+		} else {
+			env.results = []Val{r}
+		}
+		t, err := env.evalBool(cl.Expr)
+		if err != nil {
+			fr.bindFailure(cl, err)
+			continue
+		}
+		fr.c.smt.assume(implies(reach, t), "callsite yields (dependency behaviour): "+cl.Text)
+	}
+}
+
+func (fr *Frame) call0inner(instr ssa.Instruction, cc *ssa.CallCommon, st *State, reach string) Val {
 	c := fr.c
 	_ = c
 	var resT types.Type
@@ -896,6 +936,10 @@ func (fr *Frame) invokeWithContract(cc *ssa.CallCommon, ct *Contract, recv Val, 
 		c.havocAll(st)
 	} else {
 		for _, tn := range ct.Preserves {
+			if strings.HasPrefix(tn, "elems(") {
+				ms.preserve = append(ms.preserve, tn)
+				continue
+			}
 			if _, err := env.resolveType(&CType{Kind: "name", Name: tn}); err != nil {
 				fr.bindFailure(&Clause{Kind: "preserves", Text: tn}, err)
 				continue
@@ -939,10 +983,45 @@ func (c *FnCtx) havocAllBut(st *State, preserve []string, except map[string]bool
 			}
 		}
 	}
+	// preserves elems(T): backing arrays whose Go element type is T keep their contents (the callee does not write
+	// through slices of T it does not own -- an ownership assumption like the others)
+	type keptElems struct {
+		heap, sort, old string
+		tag        int
+	}
+	var kept []keptElems
+	for _, tn := range preserve {
+		if !strings.HasPrefix(tn, "elems(") || !strings.HasSuffix(tn, ")") {
+			continue
+		}
+		ct, err := parseCType(tn[6 : len(tn)-1])
+		if err != nil {
+			c.unsupported("preserves " + tn + ": " + err.Error())
+			continue
+		}
+		env := &CEnv{c: c, names: map[string]Val{}, st: st}
+		if c.fn != nil && c.fn.Pkg != nil {
+			env.pkg = c.fn.Pkg.Pkg
+		}
+		et, err := env.resolveType(ct)
+		if err != nil {
+			c.unsupported("preserves " + tn + ": " + err.Error())
+			continue
+		}
+		hn, hs := c.elemHeap(et)
+		if except[hn] {
+			continue
+		}
+		kept = append(kept, keptElems{hn, hs, c.heapGet(st, hn, hs), goTypeTag(et)})
+	}
 	oldAlloc := c.heapGet(st, "alloc", allocSort)
 	c.havocAll(st)
 	for k, v := range keep {
 		st.heaps[k] = v
+	}
+	for _, ke := range kept {
+		nh := c.heapGet(st, ke.heap, ke.sort)
+		c.smt.assume(fmt.Sprintf("(forall ((r Int)) (! (=> (= (arr_ty r) %d) (= (select %s r) (select %s r))) :pattern ((select %s r))))", ke.tag, nh, ke.old, nh), "preserves elems(...): arrays of this element type keep their contents (ownership assumption)")
 	}
 	na := c.heapGet(st, "alloc", allocSort)
 	c.smt.assume(fmt.Sprintf("(forall ((r Int)) (! (=> (select %s r) (select %s r)) :pattern ((select %s r)) :pattern ((select %s r))))", oldAlloc, na, na, oldAlloc), "allocation only grows")
@@ -1081,6 +1160,15 @@ func (fr *Frame) callsiteChecks(cc *ssa.CallCommon, args []Val, st *State, reach
 			if n := sig.Params().At(i).Name(); n != "" && n != "_" {
 				v := args[i]
 				v.T = sig.Params().At(i).Type()
+				if env.shadowed == nil {
+					env.shadowed = map[string]*Val{}
+				}
+				if prevV, had := env.names[n]; had {
+					pv := prevV
+					env.shadowed[n] = &pv
+				} else {
+					env.shadowed[n] = nil
+				}
 				env.names[n] = v
 				if env.bound == nil {
 					env.bound = map[string]bool{}
